@@ -220,6 +220,8 @@ pub struct CoreCfg<'a> {
     pub snap: Option<(u32, i64)>,
     /// C16: compare DecompressorOxide::adler32() with the bytewise definition after every call
     pub adler_probe: bool,
+    /// C06: after completion a further call consumes nothing and reports completion again
+    pub post_done: bool,
 }
 
 /// Drive the core decoder over `m` with the schedule `ops` = [[deliver, budget], ...]; budget < 0 means
@@ -420,6 +422,15 @@ pub fn run_core(m: &[u8], cfg: &CoreCfg, ops: &[Vec<i64>], st: &mut Stats) -> Re
             _ => {
                 susp += 1;
             }
+        }
+    }
+    if cfg.post_done && term == Term::Done {
+        let flags = base_flags;
+        let rest = &m[consumed..];
+        let op2 = out_pos.min(out.len());
+        let (s2, c2, w2) = decompress_with_limit(&mut r, rest, &mut out, op2, usize::MAX, flags);
+        if s2 != TINFLStatus::Done || c2 != 0 || w2 != 0 {
+            return viol("C06.nothing_consumed_after_end", format!("call after completion with {} further input bytes: {:?} consumed {} written {}", rest.len(), s2, c2, w2));
         }
     }
     h.bytes(&sink);
@@ -763,6 +774,7 @@ pub fn exec(s: &Script, st: &mut Stats) -> Result<RunInfo, Violation> {
         clause_prefix: cp,
         snap: None,
         adler_probe: s.c("adler_probe") != 0,
+        post_done: clauses & CL_C06 != 0,
     };
     let mut hh = Hasher::new();
     let mut nontrivial = !s.faults.is_empty();
@@ -937,7 +949,7 @@ pub fn exec(s: &Script, st: &mut Stats) -> Result<RunInfo, Violation> {
             if clauses & CL_C07 != 0 && v.verdict == Verdict::Valid && v.prehistory_reads == 0 {
                 // "for valid streams the result is also the same across modes and entry points":
                 // compare with the one-call run of the core decoder on a flat buffer.
-                let fcfg = CoreCfg { zlib, ring: None, ring_init: &[], flat_cap: v.out.len() + 1, hasmore: 0, extra_flags, canary: false, probe: false, expect: &v.out, expect_exact: true, tail_cap: 4, clause_prefix: cp, snap: None, adler_probe: false };
+                let fcfg = CoreCfg { zlib, ring: None, ring_init: &[], flat_cap: v.out.len() + 1, hasmore: 0, extra_flags, canary: false, probe: false, expect: &v.out, expect_exact: true, tail_cap: 4, clause_prefix: cp, snap: None, adler_probe: false, post_done: false };
                 let b = run_core(&m, &fcfg, &[], st)?;
                 if r.out != b.out {
                     return viol("C07.output_equal", format!("[inflate()] output differs from the one-call flat run (lengths {} vs {})", r.out.len(), b.out.len()));
